@@ -39,6 +39,16 @@ pub(crate) fn verify_membership<TC: Configuration>(
     root_hash: Digest,
     proof: &MembershipProof,
 ) -> Result<(), VerificationError> {
+    // Without siblings nothing binds the proof's label to its value: the value is compared
+    // with the root directly. That is only meaningful for the root node itself (which is how
+    // non-membership proofs anchored at the root use it).
+    if proof.sibling_proofs.is_empty() && proof.label != NodeLabel::root() {
+        return Err(VerificationError::MembershipProof(format!(
+            "Membership proof for label {:?} has no sibling proofs",
+            proof.label
+        )));
+    }
+
     let mut curr_val = proof.hash_val;
     let mut curr_label = proof.label;
 
